@@ -11,14 +11,14 @@ def _arg_variants(r, shape, q):
     ws = _wells_of(shape)
     R, C = shape
     full2d = {"k": "m", "x": [[[rr, cc] for cc in range(C)] for rr in range(R)]}
-    out = [({"k": "l", "x": ws}, "list"), (full2d, "ndarray"), ({"k": "s", "x": r.choice(ws)}, "list")]
+    out = [({"k": "l", "x": ws}, "list"), (full2d, "ndarray"), ({"k": "s", "x": r.choice(ws)}, "list"), (full2d, "fortran")]
     if R * C > 1:
         k = r.randint(1, min(8, R * C))
         out.append(({"k": "l", "x": [r.choice(ws) for _ in range(k)]}, r.choice(["list", "ndarray", "tuple"])))
     if R > 1 and C > 1:
         r0, c0 = r.randrange(R - 1), r.randrange(C - 1)
-        out.append(({"k": "m", "x": [[[rr, cc] for cc in range(c0, C)] for rr in range(r0, R)]}, "ndarray"))
-    return out if not q else out[:2] + out[3:4]
+        out.append(({"k": "m", "x": [[[rr, cc] for cc in range(c0, C)] for rr in range(r0, R)]}, r.choice(["ndarray", "fortran"])))
+    return out if not q else out[:2] + out[3:5]
 
 
 def cases(tier, r):
